@@ -27,3 +27,14 @@ def drain_one(sysm):
     m.playfield.available_balls -= res.get("balls", 0)
     sysm.loop.drain()
     return res
+
+
+def end_game(sysm, settle=0.05):
+    """End the running game and take the (fake) balls off the playfield, as MpfFakeGameTestCase.stop_game does."""
+    m = sysm.machine
+    if m.game:
+        m.game.end_game()
+    sysm.loop.advance(settle)
+    m.playfield.balls = 0
+    m.playfield.available_balls = 0
+    sysm.loop.drain()
